@@ -19,6 +19,8 @@ MODULES = [
     'contracts.c47_platforms',
     'contracts.c47_replay',
     'contracts.c24_restricted',
+    'contracts.c13_prereq',
+    'contracts.c03_stall',
 ]
 
 EXTRA_CHECKS = {'C26': ['contracts.c26_census:check'],
@@ -27,7 +29,8 @@ EXTRA_CHECKS = {'C26': ['contracts.c26_census:check'],
                 'C02': ['contracts.c02_retries:census'],
                 'C32': ['contracts.c32_expiry:census'],
                 'C11': ['contracts.c11_bounded:check'],
-                'C05': ['contracts.c05_bounded:check']}
+                'C05': ['contracts.c05_bounded:check'],
+                'C13': ['contracts.c13_bounded:check']}
 
 EXPECTED_MIN_OBLIGATIONS = {'C18': 150}
 
